@@ -345,6 +345,13 @@ Annotate(st, a) ==
                                                     !.idm.ann = IdAdd(@, a.id, n),
                                                     !.ix = IxAddAnn(@, ann, n)], n)
 
+\* which step of a rejected annotate fails (reported with a rejection: part of a finding's fingerprint)
+AnnotateWhy(st, a) ==
+    IF a.target.kind = "None" THEN "notarget"
+    ELSE LET t == BuildTarget(st, a.target)
+         IN IF ~t.ok THEN "target"
+            ELSE IF ~BuildData(t.st, a.data, <<>>).ok THEN "data" ELSE "dupid"
+
 ----------------------------------------------------------------------------
 (* Removal (C02)                                                           *)
 
